@@ -28,6 +28,8 @@ func TestC09D(t *testing.T) {
 func TestC15(t *testing.T) { RunC15(t) }
 func TestC17(t *testing.T)  { RunC17(t) }
 func TestC17H(t *testing.T) { RunK(t, CfgC17H()) }
+func TestC17W(t *testing.T) { RunC17W(t) }
+func TestC17D(t *testing.T) { RunC17D(t) }
 func TestC14A(t *testing.T)     { RunC14(t) }
 func TestC14Hooks(t *testing.T) { RunC14Hooks(t) }
 func TestC07K(t *testing.T) { RunK(t, CfgC07()) }
